@@ -20,6 +20,7 @@ import WpModel.Model.PendingC07
 import WpModel.Model.ExpandersC07
 import WpModel.Model.DescriptorsC07
 import WpModel.Model.NumericC07
+import WpModel.Model.GridLineC07
 
 namespace Wp.Witness.C07
 open Wp Wp.Decl Wp.Var
@@ -39,5 +40,16 @@ theorem var_fallback_commas_dropped :
     (match subst (fun _ => []) 5 fbTok with
       | some [.ident "Arial", .comma, .ident "sans-serif"] => true | _ => false) = true := by
   decide
+
+/-! ### `grid-row-start: inherit 2`: a CSS-wide keyword read as a `<custom-ident>` -/
+
+/-- css-values-4 §4.2: the CSS-wide keywords are excluded from `<custom-ident>`; a value that mixes one with other
+components is invalid.  `grid_line` takes any identifier other than `auto` / `span` as the line name:
+`grid-row-start: inherit 2` and `span inherit` are kept with the name `inherit` instead of being ignored (finding
+`css-wide-keyword-as-ident`); `C07.grid_line_sound_partial` therefore stops at "neither `auto` nor `span`". -/
+theorem grid_line_css_wide_as_ident :
+    GridLine07.gridLine [.ident "inherit" "inherit", .int 2] = some (.line false (some 2) (some "inherit")) ∧
+    GridLine07.gridLine [.ident "span" "span", .ident "initial" "initial"]
+      = some (.line true none (some "initial")) := by decide
 
 end Wp.Witness.C07
